@@ -32,6 +32,16 @@ Sw3    == Switch(<<SOne, SYZ, SChain>>)
 KSw == Static(<<Site(U, SwSame, <<Arg(2), Tup(<<Arg(1)>>), Tup(<<Arg(1)>>)>>)>>, Tup(<<Arg(1), SiteR(1)>>))  \* kernel containing a switch
 SSw == Static(<<Site(X, Dist(0), <<Arg(1)>>), Site(U, SwXY, <<SiteR(1), Tup(<<Arg(1)>>), Tup(<<Arg(1)>>)>>)>>, SiteR(2))
 SVm == Static(<<Site(X, Dist(0), <<Arg(1)>>), Site(U, Repeat(SOneB, 2), <<SiteR(1)>>)>>, SiteR(1))
+\* programs over DYADIC categorical distributions (for the sampling property C04)
+LR(t, e) == Ex("lrow", t, <<e>>)
+COne   == Static(<<Site(X, Cat, <<LR(1, Arg(1))>>)>>, SiteR(1))
+COneB  == Static(<<Site(X, Cat, <<LR(2, Arg(1))>>)>>, SiteR(1))
+CChain == Static(<<Site(X, Cat, <<LR(1, Arg(1))>>), Site(Y, Cat, <<LR(2, SiteR(1))>>)>>, Tup(<<SiteR(1), SiteR(2)>>))
+CIndep == Static(<<Site(X, Cat, <<LR(1, Arg(1))>>), Site(Y, Cat, <<LR(1, Arg(1))>>)>>, Tup(<<SiteR(1), SiteR(2)>>))
+CNest  == Static(<<Site(U, CIndep, <<Arg(1)>>), Site(Z, Cat, <<LR(1, Ix(SiteR(1), 2))>>)>>, SiteR(2))
+CYZ    == Static(<<Site(Y, Cat, <<LR(2, Arg(1))>>), Site(Z, Cat, <<LR(1, SiteR(1))>>)>>, SiteR(2))
+CK     == Static(<<Site(X, Cat, <<LR(1, Arg(1))>>)>>, Tup(<<SiteR(1), SiteR(1)>>))
+CKI    == Static(<<Site(X, Cat, <<LR(1, Cst(0))>>)>>, Tup(<<Arg(1), SiteR(1)>>))       \* iterations independent of the carry
 \* argument samples
 A(a) == <<I(a)>>
 V3(a, b, c) == Vc(<<I(a), I(b), I(c)>>)
@@ -41,10 +51,21 @@ Half == Vc(<<I(-1), I(-2), I(-2)>>)         \* log2 probabilities (1/2, 1/4, 1/4
 Quart == Vc(<<I(-2), I(-1), I(-2)>>)
 
 E(id, p, as, g) == [id |-> id, p |-> p, as |-> as, g |-> g]
-CatIds == <<"D0", "SOne", "SChain", "SIndep", "SNest", "SLit", "S2", "SDup", "VmD", "VmS", "VmAx", "VmAx2", "VmNest", "VmMask", "Rep", "Rep3", "Sc1", "Sc2", "Sc3", "ScSw", "SwXY", "SwSame", "Sw3", "SSw", "SVm", "Msk", "MskD", "Dm", "Dm2", "DmMap", "DmCon", "DmSc", "OrE", "MixE", "Acc", "Red", "It", "ItF", "MIt", "MItF", "MItF1", "Clo1", "Clo2", "Clo0">>
+CatIds == <<"CChain", "CIndep", "CNest", "CVm", "CRep", "CSc", "CScI", "CSw", "CMsk", "CMix", "CDm", "D0", "SOne", "SChain", "SIndep", "SNest", "SLit", "S2", "SDup", "VmD", "VmS", "VmAx", "VmAx2", "VmNest", "VmMask", "Rep", "Rep3", "Sc1", "Sc2", "Sc3", "ScSw", "SwXY", "SwSame", "Sw3", "SSw", "SVm", "Msk", "MskD", "Dm", "Dm2", "DmMap", "DmCon", "DmSc", "OrE", "MixE", "Acc", "Red", "It", "ItF", "MIt", "MItF", "MItF1", "Clo1", "Clo2", "Clo0">>
 \* one CASE arm per entry, so that looking one program up does not construct the others
 Entry(id) ==
-  CASE id = "D0" -> E("D0",     Dist(0), <<A(0), A(2)>>, {"core", "dist"})
+  CASE id = "CChain" -> E("CChain", CChain, <<A(0), A(1)>>, {"cat"})
+    [] id = "CIndep" -> E("CIndep", CIndep, <<A(0), A(2)>>, {"cat"})
+    [] id = "CNest"  -> E("CNest",  CNest,  <<A(1)>>, {"cat"})
+    [] id = "CVm"    -> E("CVm",    Vmap(COne, 3, <<1>>), <<<<V3(0,0,1)>>>>, {"cat"})
+    [] id = "CRep"   -> E("CRep",   Repeat(COne, 3), <<A(0)>>, {"cat"})
+    [] id = "CSc"    -> E("CSc",    Scan(CK, 3), <<<<I(0), Nn>>>>, {"cat"})
+    [] id = "CScI"   -> E("CScI",   Scan(CKI, 3), <<<<I(0), Nn>>>>, {"cat"})
+    [] id = "CSw"    -> E("CSw",    Switch(<<COne, CYZ>>), <<SwArgs(0,1,2), SwArgs(1,1,2)>>, {"cat"})
+    [] id = "CMsk"   -> E("CMsk",   Mask(CIndep), <<<<Bv(TRUE), I(0)>>, <<Bv(FALSE), I(0)>>>>, {"cat"})
+    [] id = "CMix"   -> E("CMix",   Mix(<<COne, COneB, CYZ>>), <<<<Half, Tp(A(0)), Tp(A(0)), Tp(A(1))>>>>, {"cat"})
+    [] id = "CDm"    -> E("CDm",    Dimap(CIndep, <<Add(Arg(1), Cst(1))>>, SiteR(1)), <<A(0)>>, {"cat"})
+    [] id = "D0" -> E("D0",     Dist(0), <<A(0), A(2)>>, {"core", "dist"})
     [] id = "SOne" -> E("SOne",   SOne,    <<A(0), A(1)>>, {"core", "static"})
     [] id = "SChain" -> E("SChain", SChain,  <<A(0), A(1), A(2)>>, {"core", "static"})
     [] id = "SIndep" -> E("SIndep", SIndep,  <<A(1), A(2)>>, {"static"})
@@ -77,12 +98,12 @@ Entry(id) ==
     [] id = "DmCon" -> E("DmCon",  Pg("dimap", 2, <<SChain>>, <<>>, SiteR(1), <<Add(Arg(1), Cst(2))>>), <<A(0), A(1)>>, {"dimap"})
     [] id = "DmSc" -> E("DmSc",   Dimap(Scan(K1, 2), <<Arg(1), NoE>>, Ix(SiteR(1), 1)), <<A(0), A(1)>>, {"dimap", "scan"})
     [] id = "OrE" -> E("OrE",    OrElse(SOne, SYZ), <<<<Bv(TRUE), Tp(A(0)), Tp(A(1))>>, <<Bv(FALSE), Tp(A(0)), Tp(A(1))>>>>, {"switch", "orelse"})
-    [] id = "MixE" -> E("MixE",   Mix(<<SOne, SYZ>>), <<<<Half, Tp(A(0)), Tp(A(1))>>, <<Quart, Tp(A(2)), Tp(A(1))>>>>, {"switch", "mix"})
+    [] id = "MixE" -> E("MixE",   Mix(<<SOne, SYZ, SOneB>>), <<<<Half, Tp(A(0)), Tp(A(1)), Tp(A(2))>>, <<Quart, Tp(A(2)), Tp(A(1)), Tp(A(0))>>>>, {"switch", "mix"})
     [] id = "Acc" -> E("Acc",    Accumulate(A1, 2), <<<<I(0), V2(1,2)>>, <<I(1), V2(0,1)>>>>, {"scan", "derived"})
     [] id = "Red" -> E("Red",    Reduce(A1, 2), <<<<I(0), V2(1,2)>>>>, {"scan", "derived"})
     [] id = "It" -> E("It",     Iterate(St1, 2), <<A(0), A(1)>>, {"scan", "derived"})
     [] id = "ItF" -> E("ItF",    IterateFinal(St1, 3), <<A(0)>>, {"scan", "derived"})
-    [] id = "MIt" -> E("MIt",    MaskedIterate(StD, 3), <<<<I(0), Vc(<<Bv(TRUE), Bv(FALSE), Bv(TRUE)>>)>>, <<I(1), Vc(<<Bv(TRUE), Bv(TRUE), Bv(TRUE)>>)>>>>, {"mit"})
+    [] id = "MIt" -> E("MIt",    MaskedIterate(St1, 3), <<<<I(0), Vc(<<Bv(TRUE), Bv(TRUE), Bv(FALSE)>>)>>, <<I(1), Vc(<<Bv(TRUE), Bv(TRUE), Bv(TRUE)>>)>>, <<I(2), Vc(<<Bv(TRUE), Bv(FALSE), Bv(FALSE)>>)>>>>, {"mit"})
     [] id = "MItF" -> E("MItF",   MaskedIterateFinal(StD, 3), <<<<I(0), Vc(<<Bv(TRUE), Bv(FALSE), Bv(TRUE)>>)>>, <<I(0), Vc(<<Bv(FALSE), Bv(FALSE), Bv(FALSE)>>)>>, <<I(1), Vc(<<Bv(TRUE), Bv(TRUE), Bv(TRUE)>>)>>>>, {"mit"})
     [] id = "MItF1" -> E("MItF1",  MaskedIterateFinal(St1, 2), <<<<I(0), Vc(<<Bv(FALSE), Bv(TRUE)>>)>>>>, {"mit"})
     [] id = "Clo1" -> E("Clo1",   Closure(S2, <<I(1)>>), <<A(0), A(1)>>, {"closure"})
